@@ -28,7 +28,11 @@ def resStr : Res Geom → String
   | .panic _ => "panic"
   | .ok g =>
     let fs := if g.files.isEmpty then "-" else ";".intercalate (g.files.map fileStr)
-    s!"ok name={toHex g.name} pl={g.pieceLength} len={g.length} nif={g.nInFlight} np={g.nPieces} nh={g.nHashes} files={fs}"
+    let np := g.nPieces
+    let sums := if np ≤ 20000 then
+        s!"{((List.range np).map (pieceLengthAt g)).foldl (· + ·) 0}/{((List.range np).map (pieceBlocks g)).foldl (· + ·) 0}"
+      else "-"
+    s!"ok name={toHex g.name} pl={g.pieceLength} len={g.length} nif={g.nInFlight} np={g.nPieces} nh={g.nHashes} files={fs} pls={pieceLengthAt g 0},{pieceLengthAt g (np - 2)},{pieceLengthAt g (np - 1)},{pieceLengthAt g np} sums={sums}"
 
 /-- URL in hex; "~" is the empty URL ("-" is the empty list) -/
 def ofHexU (s : String) : Option Bytes := if s == "~" then some [] else ofHex s
@@ -66,6 +70,30 @@ def step (_ : Unit) (ws : List String) : Unit × String :=
     match MetaLine.parseBInfo rest with
     | some (psl, bi) => ((), resStr (metadataComplete psl bi))
     | none => ((), "bad-op")
+  | "mc2" :: dn :: rest =>
+    -- a magnet's metadata delivered twice: MetadataComplete WITH its assignments
+    match ofHex dn, MetaLine.parseBInfo rest with
+    | some dn, some (_, bi) =>
+      let st0 : TState := { name := dn, inFlight := none, nHashes := none, psLen := 0, pieceSize := 0,
+                            nPieces := 0, files := none, complete := false }
+      let trace (st : TState) : String :=
+        let l := (if st.psLen ≠ 0 ∨ st.pieceSize ≠ 0 ∨ st.nPieces ≠ 0 then ["pieces"] else []) ++
+          (if st.inFlight.getD 0 ≠ 0 then ["inflight"] else []) ++
+          (if st.nHashes.getD 0 ≠ 0 then ["hashes"] else []) ++
+          (if st.files.isSome then ["files"] else []) ++
+          (if st.name ≠ dn then ["name"] else []) ++
+          (if st.complete then ["complete"] else [])
+        if l.isEmpty then "-" else ",".intercalate l
+      let one (r : TState × Res Unit) : String :=
+        match r.2 with
+        | .ok _ => "ok"
+        | .err e => s!"err {errStr e} trace={trace r.1}"
+        | .panic _ => "panic"
+      let r1 := metadataCompleteSt st0 bi
+      match r1.2 with
+      | .err _ => ((), s!"{one r1} | {one (metadataCompleteSt r1.1 bi)}")
+      | _ => ((), one r1)
+    | _, _ => ((), "bad-op")
   | ["wtb", tiers, wsl, cdate, ih] =>
     -- the bytes WriteTorrent produces, and what ReadTorrent-over-bytes makes of them
     match parseTiers tiers, parseWs wsl, cdate.toInt?, ofHex ih with
